@@ -83,6 +83,49 @@ CHECKS = {
             "Python frontend only; bindings of the moved function's own name are excluded for the move edit; observation helpers are shared "
             "with C05 (harness/c05_lian.py).",
             "DESIGN.md 3/C12"),
+    "C13": ("parameterised adversarial program families with swept size; deterministic step counters and a growth bound between consecutive sizes; forked children under watchdog and memory limit",
+            "Twenty program families (recursion, mutual-recursion rings, higher-order self-application, cyclic imports, cyclic object graphs, nested loops, "
+            "call chains with 2-3 call sites per function, branch / alias / literal / assignment chains, multi-valued operand chains, hostile constants), "
+            "each with and without --enable-p2, sizes 2..16 (quick) / ..64 (thorough), plus Hypothesis-drawn compositions of two families. Every run is a "
+            "forked child with address-space limit and watchdog; wrapped counters (statement visits in P2/P3, frames, taint work-list pops, state-space "
+            "growth) must satisfy counter(b) <= (b/a)^3.5 * counter(a) for consecutive sizes, and the run must end within the watchdog.",
+            "Non-termination is only observable as a budget overrun; polynomial growth is decided on the wrapped counters for the stated families, Python only.",
+            "DESIGN.md 3/C13"),
+    "C14": ("generated and corpus projects analysed in separate processes under different hash seeds, repetitions, predecessor projects and workspace locations (incl. another filesystem); byte / table comparison",
+            "Each project (Hypothesis-generated name-rich Python / JavaScript projects and repository corpus files) is analysed by `lian run` in six fresh "
+            "processes: hash seeds 0 / 1 / drawn, twice into the same forced workspace, after a different project in that workspace, into a workspace at "
+            "another path and on tmpfs. Files under frontend/ semantic_p*/ taint/ must be byte-identical for a shared workspace path and equal after "
+            "loading and workspace-prefix normalisation otherwise.",
+            "Address-dependent order is only sampled by repetition; input directory, settings and cwd are the same for all runs of a project.",
+            "DESIGN.md 3/C14"),
+    "C15": ("model-based testing of 38 loader families: Hypothesis-generated save/get/export/reopen/fault histories against a dict model, plus interception of every Loader.save_* of real pipeline runs",
+            "For each loader family (bundle loaders and whole-file loaders) histories of <= 30 (quick) / 40 (thorough) operations over 4 ids with cache "
+            "capacities 1..3 and MAX_ROWS in {1,3,8} are applied to the real loader and to a dict model; every get, every view after reopen and the bundle "
+            "files read with pandas must agree under the family's normal form; a terminal fault (directory removed / replaced) must be reported. Real "
+            "pipeline runs on fixed projects record every saved item, which a fresh Loader must restore.",
+            "Normal forms per family are the harness' reading of what callers observe; histories end at a fault; three loader families are covered by real runs only.",
+            "DESIGN.md 3/C15"),
+    "C16": ("model-based testing of DataModel / GIRBlockViewer: Hypothesis-generated operation sequences against a list-of-(label, dict) model, all queries compared after every step",
+            "Operation sequences (all construction forms, modify_element / row / column, append, remove_rows, rename / set columns, fillna, reset_index, "
+            "slice, clone, sub-table continuation) over small tables with duplicates and missing values and over GIR-like tables with block markers; after "
+            "every step (in drawn check order, with deliberately unchecked steps) every row / column / equality-index / mask / block query and every "
+            "GIRBlockViewer query is compared with a scan of the model.",
+            "The model mirrors pandas label semantics; writes through Row objects and modify_element on missing labels are outside the generated domain.",
+            "DESIGN.md 3/C16"),
+    "C18": ("pairwise covering array (quick) / full product (thorough) of filesystem layouts, each run as a CLI subprocess in a per-case sandbox with before/after snapshots",
+            "Configurations of input kind x workspace placement (disjoint, inside the input, containing the input, identical) x workspace spelling (default, "
+            "custom, name containing lian_workspace, relative, absolute, through symlinks) x previous state x flags (-f, -q, -inc) x sub-command; the sandbox "
+            "is snapshotted (path, type, size, sha256, mode, link target) before and after: nothing outside the workspace changes, inputs stay identical, "
+            "nothing is deleted unforced, copying is bounded and the run does not die of the placement.",
+            "Python inputs only; every path is asserted to lie >= 2 levels inside the sandbox before a run; matplotlib's per-user font cache is redirected.",
+            "DESIGN.md 3/C18"),
+    "C20": ("Hypothesis-generated multi-file projects x generated entry rule sets against a reference matcher; entry set, P3 roots, analysed methods and flows compared",
+            "Projects of 2-4 Python (+ JavaScript / Java) files with called and never-called methods, each holding its own parameter->sink pair, are analysed "
+            "under generated *entry.yaml rule sets (empty, %unit_init only, method lists, lang / unit_name / unit_path / attrs / id restrictions, duplicates, "
+            "several files and directories, malformed files). The saved entry set, the roots and analysed methods of P3 and the reported flows must be "
+            "exactly what a reference matcher written from the rule fields selects and what is reachable from it.",
+            "The reference matcher models substring matching of unit_name / unit_path as the code documents it; only `from m import f` imports are generated.",
+            "DESIGN.md 3/C20"),
 }
 
 NOT_YET = {}
